@@ -17,8 +17,13 @@
   Keep-vs-Update.  Deep equality `==`, the dict of non-expression leaves, `_is_same_type`'s class and the class
   identity are shipped as equivalence-class numbers; the dice coefficient as the exact value the real code computed.
 
-  NOT modelled: SQL generation / bigram histograms behind the dice value, `Expr.__eq__`/`__hash__`, `diff()`'s
-  copy-on-shared-nodes and hash-cache handling (covered by the search oracle on the real code).
+  Layer C (`Wrapper`): `diff()` itself — shared-node detection, which trees are copied, where hashes are cached and
+  what `finally` evicts — on an arena of objects with `.parent` pointers and hash-cache bits; its shape (`Policy`) is
+  extracted from the source on every run.
+
+  NOT modelled: SQL generation / bigram histograms behind the dice value (axiomatised by `DiceOk`, validated on every
+  shipped pair), `Expr.__eq__`/`__hash__` (axiomatised by `EqcCongr`, validated likewise), the translation of
+  `matchings=` onto the copies (`compute_node_mappings`; covered by the search oracle on the real code).
 -/
 namespace SqlglotModel.Diff
 
